@@ -7,9 +7,10 @@ PROP = dict(
         "lists / association lists in the model)",
         "closures: the bodies of `where` predicates and `=>` functions are evaluated by one shared first-order evaluator "
         "(T.eval/P.eval) on both sides; only the set machinery around them is under test",
-        "tuple specialisation (NewTuple/TupleBuilder, repair #20 owned by C02) is modelled as repaired: a (@,@char)/(@,@byte) "
-        "pair is a StringCharTuple/BytesByteTuple only when the character/byte is in range; out-of-range pairs are class "
-        "KF-tuple-specialise-range until that repair lands",
+        "tuple specialisation (NewTuple/TupleBuilder.Finish) is modelled by its effect on bucket routing: a (@,@char)/(@,@byte) "
+        "pair is a StringCharTuple/BytesByteTuple only when the character/byte is in range, otherwise a generic tuple",
+        "`where`/`=>` bodies outside the modelled first-order fragment (`<` or `+` on non-numbers, `.a` on a set) are not "
+        "generated (the model has no prediction there)",
         "the relation bucket key is modelled by the list of names (names containing ', ' are C10's KF-relation-bucket)",
     ],
     assumptions=[
@@ -19,21 +20,24 @@ PROP = dict(
         "`(<>=)` (which calls Equal) only on operands written as literals; a sugar-headed tuple always has a numeric `@` "
         "(other shapes panic by design: KF-pinned-panics of C10)",
     ],
-    level_text="Proof: 50 Lean theorems about an executable transliteration of the (repaired) Go set representations and of "
+    level_text="Proof: 53 Lean theorems about an executable transliteration of the Go set representations and of "
                "rel/ops_set.go. Per representation (EmptySet, TrueSet, GenericSet, String, Bytes, Array, Dict, Relation, "
                "UnionSet) an interface contract: the enumeration lists exactly the members, pairwise distinct and of the "
                "representation's own bucket; Has/Count/IsTrue/With/Without/Where refine membership/cardinality/insert/erase/"
                "filter of the finite set denoted and return well-formed values. From the contracts: SetBuilder.Finish, "
-               "CanonicalSet, Intersect, Union, Difference, SymmetricDifference for every mix of representations (incl. "
-               "UnionSet x UnionSet per bucket, UnionSet x plain, the element-wise default path), the subset comparisons, "
-               "count = number of distinct members, `=>` through the builder; the finite-set algebra of the specification "
-               "(union/inter/diff/symdiff/insert/erase/filter/image/power set/subset, canonical results). PowerSet is proved "
-               "for the EmptySet/GenericSet paths only and whole programs (operators applied to results of operators) are "
-               "covered by the correspondence run: both stay stated as `_full` propositions. Partial (admissibility "
-               "hypotheses, each refuted at full strength by a witness theorem) where a byte array would need holes or a "
-               "sequence two values at one index (known findings). The model is tied to /repo by running both on generated "
-               "programs of the set-algebra family (operator x representation x representation x relation of the operands; "
-               "observables canon, count, three membership probes) on every run.",
+               "CanonicalSet, Intersect, Union, Difference, SymmetricDifference for every mix of representations, PowerSet "
+               "for every representation (fast paths and the With/Union loop), the subset comparisons, count = number of "
+               "distinct members, `=>` through the builder, literals; and by induction over the expression language, whole "
+               "programs (operators applied to the results of operators, to any depth): whenever the specification yields a "
+               "value the evaluator yields a well-formed representation of exactly that value, under `Adm e` = the "
+               "conjunction of the step hypotheses along the evaluation. The finite-set algebra of the specification is "
+               "proved exact and canonical. Partial: each admissibility hypothesis excludes a known-finding class (two "
+               "values at one index, a byte array with a gap, a sugar tuple handed to Relation.With) and is refuted at full "
+               "strength by a witness theorem; not proved: that the generator's specification-level class predicates imply "
+               "`Adm` (`programs_full`, `powerSet_full` stay stated as propositions) and the error outcomes of `where`/`=>`. "
+               "The model is tied to /repo by running both on generated programs of the set-algebra family (operator x "
+               "representation x representation x relation of the operands; observables canon, count, three membership "
+               "probes) on every run.",
     design_ref="DESIGN.md section 6, C01",
     watch=["rel.Intersect", "rel.Union", "rel.Difference", "rel.SymmetricDifference", "rel.PowerSet",
            "rel.SetBuilder.Add", "rel.SetBuilder.Finish", "rel.asString", "rel.asBytes", "rel.asArray", "rel.NewDict",
